@@ -404,16 +404,16 @@ func checkCalls(fset *token.FileSet, pos token.Pos, name string, pkgPath string,
 				fset.Position(pos),
 				fmt.Errorf("inject %s: provider for %s returns error but injection not allowed to fail", name, ts)))
 		}
-		if c.kind != valueExpr && c.pkg != nil && c.pkg.Path() != pkgPath {
+		if c.kind != valueExpr {
 			// The generated code names the provider function, the struct type
 			// and its fields, or the selected field: they must be visible
 			// from the injector's package.
-			for _, n := range append([]string{c.name}, c.fieldNames...) {
-				if n != "" && !ast.IsExported(n) {
+			for _, id := range namedByCall(c) {
+				if id.name != "" && !ast.IsExported(id.name) && id.pkg != nil && id.pkg.Path() != pkgPath {
 					ts := types.TypeString(c.out, nil)
 					ec.add(notePosition(
 						fset.Position(pos),
-						fmt.Errorf("inject %s: provider for %s uses unexported identifier %s of package %s", name, ts, n, c.pkg.Path())))
+						fmt.Errorf("inject %s: provider for %s uses unexported identifier %s of package %s", name, ts, id.name, id.pkg.Path())))
 				}
 			}
 		}
@@ -428,6 +428,41 @@ func checkCalls(fset *token.FileSet, pos token.Pos, name string, pkgPath string,
 		}
 	}
 	return ec.errors
+}
+
+// A printedName is an identifier that generated code spells out, together
+// with the package that declares it.
+type printedName struct {
+	pkg  *types.Package
+	name string
+}
+
+// namedByCall lists the identifiers the code generated for c spells out. The
+// fields of a struct provider belong to the package that declares them, which
+// is not the package of the type name when the type is an alias of, or is
+// defined from, another package's struct.
+func namedByCall(c *call) []printedName {
+	ids := []printedName{{c.pkg, c.name}}
+	if len(c.fieldNames) == 0 {
+		return ids
+	}
+	t := c.out
+	if p, ok := t.Underlying().(*types.Pointer); ok {
+		t = p.Elem()
+	}
+	st, _ := t.Underlying().(*types.Struct)
+	for _, n := range c.fieldNames {
+		id := printedName{c.pkg, n}
+		if st != nil {
+			for i := 0; i < st.NumFields(); i++ {
+				if f := st.Field(i); f.Name() == n {
+					id.pkg = f.Pkg()
+				}
+			}
+		}
+		ids = append(ids, id)
+	}
+	return ids
 }
 
 // rewritePkgRefs rewrites any package references in an AST into references for the
